@@ -82,6 +82,12 @@ type Plan struct {
 	hitCall   Call
 	phase     string
 	log       []Call
+	// OnOp, if set before the run starts, observes every non-storage
+	// operation counted through Op (done=false, before the fault decision
+	// and before the operation is carried out, in the goroutine of the
+	// caller) and every completion reported through OpDone (done=true).
+	// It is called without the plan's lock.
+	OnOp func(component, op, detail string, done bool)
 }
 
 // NewPlan creates a plan that faults the faultAt-th counted call (0 = never).
